@@ -9,7 +9,7 @@
 """
 import re
 from .lib import mirq, astq, natives, guards, report
-from .lib.facts import strip_generics, find_nodes, walk, op_local
+from .lib.facts import strip_generics, find_nodes, walk, op_local, op_place
 
 NATIVE_OF = {'XSequence': 'Native:XSequence', 'XOptional': 'Native:XOptional', 'XMapping': 'Native:XMapping', 'XSet': 'Native:XSet',
              'XStack': 'Native:XStack', 'XGenerator': 'Native:XGenerator', 'Regex': 'Native:Regex',
@@ -37,6 +37,9 @@ SUB_OK = {
     ('util::fenced_string::FencedString::from_string', "('const', 1)"): 'guarded by the preceding emptiness test of the string',
     ('util::ipush::IPush::ipush', "('const', 1)"): 'len() - 1 right after a push',
     ('builtin::sequence::XSequence::sample', '*'): 'u64::BITS - leading_zeros(): leading_zeros <= 64',
+    ('builtin::sequence::XSequence::len', "('ref', '_1*as6.1')"): 'Slice(_, start, Some(end)): slice() builds a Slice only after its start >= end test returned Empty (R15.4), so end - start cannot underflow',
+    ('util::fenced_string::FencedString::substring::{closure#1}', '*'): 'table entries from position `start` on are >= char_starts[start]: from_string pushes the increasing char_indices',
+    ('util::fenced_string::FencedString::substring::{closure#2}', '*'): 'table entries from position `start` on are >= char_starts[start]: from_string pushes the increasing char_indices',
     ('builtin::regex::match_at', '*'): 'haystack().len() - start(): regex_automata Input keeps start <= len',
 }
 
@@ -45,6 +48,55 @@ SUB_OK = {
 SUB_NEEDS = {
     'builtin::stack::add_stack_tail::{closure#0}': ('head', 1),
 }
+
+
+def bl_cleanup(b, bb):
+    return b.is_cleanup(bb)
+
+
+def widened(b, rv, depth=3):
+    """both operands of a subtraction in a wide type (i128 / u128 / i64) are constants or values cast up from a type at most half
+    as wide, possibly combined by one more such + / - : the exact result always fits"""
+    aty = rv.get('aty') or ''
+    m = re.match(r'[iu](\d+)$', aty)
+    if not m:
+        return False
+    width = int(m.group(1))
+
+    def narrow(op, d):
+        if 'const' in op:
+            return True
+        p = op_place(op)
+        if p is None:
+            return False
+        if p['p']:
+            # a component of a tuple built here (`let (a, b) = (x as i128, y as i128)`) or the value of a checked operation
+            if not (len(p['p']) == 1 and isinstance(p['p'][0], dict) and 'f' in p['p'][0]):
+                return False
+            ds = b.defs().get(p['l'], [])
+            if len(ds) != 1 or ds[0][0] != 'stmt':
+                return False
+            r0 = ds[0][3]['rv']
+            if r0['k'] == 'agg' and r0.get('ak') == 'tuple' and p['p'][0]['f'] < len(r0['ops']):
+                return narrow(r0['ops'][p['p'][0]['f']], d)
+            if r0['k'] in ('bin', 'checkedbin') and p['p'][0]['f'] == 0 and r0['op'].replace('WithOverflow', '') in ('Add', 'Sub') and d > 0:
+                return narrow(r0['a'], d - 1) and narrow(r0['b'], d - 1)
+            return False
+        ds = b.defs().get(p['l'], [])
+        if len(ds) != 1 or ds[0][0] != 'stmt':
+            return False
+        r2 = ds[0][3]['rv']
+        if r2['k'] == 'cast' and r2.get('ck') == 'IntToInt':
+            sp = op_place(r2['op'])
+            sty = b.local_ty(sp['l']) if sp is not None and not sp['p'] else ''
+            m2 = re.match(r'[iu](\d+|size)$', sty or '')
+            return bool(m2) and (64 if m2.group(1) == 'size' else int(m2.group(1))) * 2 <= width
+        if r2['k'] in ('bin', 'checkedbin') and r2['op'].replace('WithOverflow', '') in ('Add', 'Sub') and d > 0:
+            return narrow(r2['a'], d - 1) and narrow(r2['b'], d - 1)
+        if r2['k'] == 'use':
+            return narrow(r2['op'], d)
+        return False
+    return narrow(rv['a'], depth) and narrow(rv['b'], depth)
 
 
 def rebadge(ctx, sub, mapping):
@@ -210,6 +262,9 @@ def run(ctx):
                 continue
             x = guards.origin_key(b, st[-1]['rv']['a'])
             y = guards.origin_key(b, st[-1]['rv']['b'])
+            if widened(b, st[-1]['rv']):
+                r6.inst({'body': b.id, 'site': mirq.site(b, i), 'guard': 'operands widened from a narrower integer type: the difference fits'}, kind=(b.id, i))
+                continue
             f = guards.dominating_facts(b, i)
             if guards.implies_ge(f, x, y):
                 r6.inst({'body': b.id, 'site': mirq.site(b, i), 'guard': 'dominating comparison'}, kind=(b.id, i))
@@ -227,6 +282,28 @@ def run(ctx):
                 r6.exempted(b.nid, SUB_OK.get((b.nid, str(y))) or SUB_OK.get((b.nid, '*')))
             else:
                 bad.append(i)
+        # (b) the same arithmetic written on references: `&i64 - i64`, `usize - &usize`, `-&i64` are calls of the core::ops impls for
+        #     primitives, which check for overflow exactly like the MIR operator.  Unsigned: guarded by a dominating comparison or
+        #     listed.  Signed: the span of two 64-bit values needs 65 bits, no comparison of the operands makes `a - b` safe: listed only.
+        for bb, tm in b.calls():
+            cn = tm.get('callee') or tm.get('decl') or ''
+            m_ = re.search(r"<&?(?:'\w+ )?([iu])(8|16|32|64|128|size) as std::ops::(Sub|Neg)", cn)
+            if not m_ or bl_cleanup(b, bb):
+                continue
+            signed = m_.group(1) == 'i'
+            y = guards.origin_key(b, tm['args'][1]) if len(tm['args']) > 1 else ('neg',)
+            if not signed:
+                x = guards.origin_key(b, tm['args'][0])
+                f = guards.dominating_facts(b, bb)
+                if guards.implies_ge(f, x, y):
+                    r6.inst({'body': b.id, 'site': mirq.site(b, bb), 'guard': 'dominating comparison'}, kind=(b.id, 'call', bb))
+                    continue
+            listed = (b.nid, str(y)) in SUB_OK or (b.nid, '*') in SUB_OK
+            r6.inst({'body': b.id, 'site': mirq.site(b, bb), 'reference_arithmetic': cn.split(' as ')[0].strip('<') + ' ' + m_.group(3), 'listed': listed}, ok=listed, kind=(b.id, 'call', bb))
+            if listed:
+                r6.exempted(b.nid, SUB_OK.get((b.nid, str(y))) or SUB_OK.get((b.nid, '*')))
+            else:
+                bad.append(bb)
         if bad:
             r6.fail('%s/arith' % b.nid, mirq.site(b, bad[0]), '%d unsigned/checked subtraction(s) on argument-derived values without a dominating guard on the same operands (first at %s): underflow panics the interpreter' % (len(bad), mirq.site(b, bad[0])),
                     {'sites': [mirq.site(b, i) for i in bad]})
